@@ -21,7 +21,7 @@ import core
 PRELUDE = '''From Coq Require Import ZArith QArith Qminmax List Bool.
 From DK Require Import Num NumQ Vec.
 From DK.Gen Require Import Kernels.
-From DK.Model Require Import Leaf Fn Dev Tree Projection PyOps SetOps FnOps ProbeEnc.
+From DK.Model Require Import Leaf Fn Dev Tree Projection PyOps SetOps FnOps ConOps ProbeEnc.
 Require DK.Gen.Classes.
 Require DK.Gen.%(name)s.
 Require DKC.%(name)sNew.
@@ -149,8 +149,28 @@ BATTERIES['Storage'] = [
                      '[va; vb; vc; [-3; -3; 1]; [-3; 2; -3]])') % ((c1, c2, c3, e, su) * 3))
   for (c1, c2, c3) in (('1', '1#2', '2'), ('1', '0', '0'), ('2', '1', '3')) for e in ('1', '3#4') for su in ('1', '1#2')
 ]
-EXTRA = {'DeviceSet': KIDS, 'MFDeviceSet': KIDS, 'Functions': KIDS}
-NAMES = {'projection': 'Projection', 'thermal': 'Thermal', 'deviceset': 'DeviceSet', 'mfdeviceset': 'MFDeviceSet', 'functions': 'Functions', 'classes': 'Classes', 'storage': 'Storage'}
+CONS = '''Definition enc_con (pts : list (list Q)) (c : con Q) : list Q :=
+  enc_b (c_eq c) ++ List.concat (map (fun x => enc_s (c_fun c x) ++ match c_jac c with Some j => 1 :: enc_v (j x) | None => [0] end) pts).
+Definition enc_cons (pts : list (list Q)) (cs : list (con Q)) : list Q := inject_Z (Z.of_nat (length cs)) :: List.concat (map (enc_con pts) cs).
+Definition kc (w : Q) (k : nat) : ckid Q :=
+  {| ck_cons := [Build_con false (fun x => w * vsum (map (fun v => v * v) x) - 1) (Some (fun x => map (fun v => 2 * w * v) x));
+                 Build_con true (fun x => vsum x - inject_Z (Z.of_nat k)) None] |}.
+Definition f6 : list (list Q) := [[1; -2; 3; 1#2; 0; -1]; [0; 0; 0; 0; 0; 0]; [2; 2; 1#3; -(1#2); 4; 1]].
+Definition f12 : list (list Q) := [flat4; map (fun v => v * (1#2) - 1) flat4].
+'''
+BATTERIES['Constraints'] = [
+  ('Device.constraints', 'List.concat (map (fun cbs => enc_cons [va; vb; vc] (@M@.Device_constraints 3 cbs)) [[]; [(1, 2, 0%nat, 3%nat)]; [(0, 1, 0%nat, 1%nat); (-1, 3, 1%nat, 3%nat); (2, 5, 0%nat, 2%nat)]])'),
+  ('SDevice.constraints', 'List.concat (map (fun q => enc_cons [va; vb; vc; [-3; 2; -3]] (@M@.SDevice_constraints (@M@.Device_constraints 3 [(0, 1, 0%nat, 2%nat)]) q 3 [(-2, 2); (-1, 3); (-4, 1)])) '
+                          '[Build_sparams 1 0 0 8 (1#2) (1#4) (1#2) (3#4) (1#2) None None; Build_sparams 1 0 0 6 0 (1#2) 0 1 1 (Some 2) None; Build_sparams 1 0 0 6 0 (1#2) (1#4) (1#2) (3#4) (Some (3#2)) (Some 2)])'),
+  ('DeviceSet.constraints', 'List.concat (map (fun sb => enc_cons f12 (@M@.DeviceSet_constraints [kc 1 1; kc 2 2; kc (1#2) 1] [(0%nat, 1%nat); (1%nat, 2%nat); (3%nat, 1%nat)] (4%nat, 3%nat) sb)) '
+                            '[None; Some [(0, 1); (2, 2); (-1, 3)]; Some [(1, 1); (1, 1); (1, 1)]; Some [(0, 5); (1, 2); (3, 4)]])'),
+  ('SubBalanced/TwoRatio/MF', 'enc_cons f12 (@M@.SubBalancedDeviceSet_constraints [] (4%nat, 3%nat) [[0%nat; 2%nat]; [1%nat]; []] true 1) ++ '
+                              'enc_cons f12 (@M@.SubBalancedDeviceSet_constraints (ck_cons (kc 1 1)) (4%nat, 3%nat) [[3%nat; 1%nat]] false (-(1#2))) ++ '
+                              'enc_cons f6 (@M@.TwoRatioMFDeviceSet_constraints [] (2%nat, 3%nat) (2, -(1#2)) true) ++ enc_cons f6 (@M@.TwoRatioMFDeviceSet_constraints (ck_cons (kc 1 1)) (2%nat, 3%nat) (0, 3) false) ++ '
+                              'enc_cons f6 (@M@.MFDeviceSet_constraints [] (ck_cons (kc 1 1)) (2%nat, 3%nat)) ++ enc_cons f12 (@M@.MFDeviceSet_constraints (ck_cons (kc 2 1)) (ck_cons (kc 1 2)) (4%nat, 3%nat))'),
+]
+EXTRA = {'Constraints': KIDS + CONS, 'DeviceSet': KIDS, 'MFDeviceSet': KIDS, 'Functions': KIDS}
+NAMES = {'projection': 'Projection', 'thermal': 'Thermal', 'deviceset': 'DeviceSet', 'mfdeviceset': 'MFDeviceSet', 'functions': 'Functions', 'classes': 'Classes', 'storage': 'Storage', 'constraints': 'Constraints'}
 
 
 def supported(w):
